@@ -13,7 +13,8 @@ def rand_ub(rng):
         s = [10 ** rng.uniform(-2.5, 2.5) for _ in range(3)]
         M = Q1.dot(np.diag(s)).dot(Q2)
         if np.linalg.det(M) > 0 and max(s) / min(s) < 1e6:
-            return M
+            # any overall magnitude: the split into a rotation and a triangular factor is scale invariant
+            return M * (10.0 ** rng.choice([0, 0, 0, -20, -15, -12, -8, -4, 4, 8, 12, 15, 20]))
 
 
 def pre_build(ctx):
